@@ -364,6 +364,22 @@ def templates():
         # the same inside a function body (folded when the closure is created) and with a closure created after the construct
         T.append([L, EFFC, ("fndecl", "g", [], ANY, [("set", "x", outer), ("ifset", "x", INT, ev, ("block", [mark(2)]), None), ("return", V("x"))]), fin(("call", V("g"), []))])
         T.append(pre + [("ifset", "x", INT, ev, ("block", [mark(2)]), None), ("fndecl", "h", [], INT, [("return", V("x"))]), fin(("call", V("h"), []))])
+    # a loop body that READS an outer constant and only later shadows the name, run for several iterations (each iteration
+    # has a scope of its own: the read is the outer constant every time - folded, it trivially is); `loop`, `while true`
+    # (folded to a plain loop), `while <run-time condition>`, with a closure created in the body
+    for outer in (I(1), I(0)):
+        cnt = [("set", "n", ("mut", INT, I(0))), ("set", "acc", ("mut", INT, I(0))), ("set", "x", outer)]
+        body = [("assign", "add", V("acc"), ("bin", "add", V("x"), I(10))), ("set", "x", ("bin", "mul", ("pre", "deref", V("acc")), I(100))),
+                ("assign", "add", V("n"), I(1)), ("if", ("bin", "ge", ("pre", "deref", V("n")), I(3)), ("block", [("break",)]), None)]
+        fin2 = fin(("tuple", [("pre", "deref", V("acc")), V("x")]))
+        T.append([L] + cnt + [("loop", ("block", body)), fin2])
+        T.append([L] + cnt + [("while", ("true",), ("block", body)), fin2])
+        T.append([L] + cnt + [("set", "go", ("true",)), ("while", V("go"), ("block", body)), fin2])
+        T.append([L] + cnt + [("while", ("bin", "lt", ("pre", "deref", V("n")), I(3)), ("block", body[:3])), fin2])
+        T.append([L] + cnt + [("set", "fs", ("mut", arr(ANY), ("array", []))),
+                              ("loop", ("block", [("assign", "add", V("fs"), ("array", [("fn", [], INT, [("return", V("x"))])])), ("set", "x", I(50)),
+                                                  ("assign", "add", V("n"), I(1)), ("if", ("bin", "ge", ("pre", "deref", V("n")), I(2)), ("block", [("break",)]), None)])),
+                              fin(("tuple", [("call", ("at", ("pre", "deref", V("fs")), I(0)), []), ("call", ("at", ("pre", "deref", V("fs")), I(1)), [])]))])
     T += dead_branch_templates()
     # unary operators on constants
     for v in (0, 5, -2**63):
